@@ -309,22 +309,28 @@ func init() {
 		case *StoreRef:
 			switch m.Name() {
 			case "Get":
+				it.traceStoreOp('G', x, bytesArg(it, a[0]), nil)
 				return it.storeGet(x, bytesArg(it, a[0])), true
 			case "Has":
+				it.traceStoreOp('H', x, bytesArg(it, a[0]), nil)
 				v := it.storeGet(x, bytesArg(it, a[0]))
 				if s, ok := v.(SliceV); ok && s.O == nil {
 					return c.False, true
 				}
 				return c.True, true
 			case "Set":
+				it.traceStoreOp('S', x, bytesArg(it, a[0]), a[1])
 				it.storeSet(x, bytesArg(it, a[0]), a[1])
 				return nil, true
 			case "Delete":
+				it.traceStoreOp('D', x, bytesArg(it, a[0]), nil)
 				it.storeDelete(x, bytesArg(it, a[0]))
 				return nil, true
 			case "Iterator":
+				it.traceStoreOp('I', x, nil, nil)
 				return it.storeIterator(x, a[0], a[1], false), true
 			case "ReverseIterator":
+				it.traceStoreOp('R', x, nil, nil)
 				return it.storeIterator(x, a[0], a[1], true), true
 			}
 			it.abort("kvstore method %s not modelled", m.Name())
